@@ -90,6 +90,12 @@ def handle : Handler := fun j => do
       | _ => throw "expected [topological, checkCycles]"
     let lists := roots.map fun (n, v) =>
       Json.arr (modes.map fun (t, c) => outcomeToJson (getDependentProducts db fuel ⟨n, v, true⟩ t c)).toArray
+    let builds := roots.map fun (n, v) =>
+      match createDeps db fuel ⟨n, v, true⟩ with
+      | .ok l => Json.mkObj [("out", "ok"), ("list", Json.arr (l.map fun (a, b, c) =>
+          Json.arr #[ofStr a, ofStrOpt b, Json.bool c]).toArray)]
+      | .notFound => Json.mkObj [("out", "NotFound")]
+      | .undetermined => Json.mkObj [("out", "Undetermined")]
     let queries ← (← jarr j "queries").mapM pairOfJson
     let usesPart : List (String × Json) :=
       if queries.isEmpty then [] else
@@ -98,7 +104,7 @@ def handle : Handler := fun j => do
       | .cycle => [("uses", "Cycle")]
       | .ok sb => [("uses", "ok"),
                    ("users", Json.arr (queries.map fun (n, v) => Json.arr ((users sb n v).map userToJson).toArray).toArray)]
-    pure (Json.mkObj ([("lists", Json.arr lists.toArray)] ++ usesPart))
+    pure (Json.mkObj ([("lists", Json.arr lists.toArray), ("builds", Json.arr builds.toArray)] ++ usesPart))
   | "topo" =>
     let g ← natGraphOfJson j
     match Topo.topologicalSort g (← jbool j "cc") with
